@@ -538,11 +538,106 @@ var rereg = fw.Register(&fw.Prop[ReregCase]{
 
 func TestReregister(t *testing.T) { fw.Run(t, rereg) }
 
+// ---------------------------------------------------------------- functions that read the world
+//
+// A custom function is Go code: it may read what lies outside the expression (a clock, a device, a table).  A machine
+// keeps nothing from one run to the next, so a run made after the world has changed returns what a machine compiled
+// at that moment would return.
+
+type EnvCase struct {
+	Src     int    `json:"src"`
+	States  []int  `json:"states"`
+	Runners int    `json:"runners"`
+	Ctx     string `json:"ctx"`
+}
+
+var envState atomic.Int64
+
+var envSrcs = []string{"verif-env()", "concat('s=', verif-env())", "verif-env() = 'env:2'", "string-length(verif-env()) + 1", "verif-env-num() + 1", "verif-env-num() > 2 or verif-env() = 'env:0'",
+	"not(verif-env-num() mod 2 = 1)", "concat(verif-env(), a)", "verif-env-num() * 2 < ../b or contains(a, verif-env())", "translate(verif-env(), 'env', 'ENV')", "-verif-env-num()",
+	"concat(verif-env(), verif-env-num())", "(verif-env() = 'env:1') = (verif-env-num() = 1)", "substring(verif-env(), 5, 1) + 0"}
+
+func genEnv(t *rapid.T) EnvCase {
+	return EnvCase{Src: rapid.IntRange(0, len(envSrcs)-1).Draw(t, "envsrc"), States: rapid.SliceOfN(rapid.IntRange(0, 4), 2, 5).Draw(t, "states"),
+		Runners: rapid.IntRange(1, 4).Draw(t, "envrunners"), Ctx: []string{"ctx", "x", "top"}[rapid.IntRange(0, 2).Draw(t, "envctx")]}
+}
+
+func checkEnv(c EnvCase) fw.Outcome {
+	src := envSrcs[c.Src%len(envSrcs)]
+	out := fw.Outcome{Key: fmt.Sprint(src, c.States, c.Runners, c.Ctx)}
+	changes := 0
+	for i := 1; i < len(c.States); i++ {
+		if c.States[i] != c.States[i-1] {
+			changes++
+		}
+	}
+	out.NonTrivial = changes >= 1
+	it := Item{Src: src, Ctx: tree.ID{{Name: c.Ctx}}}
+	envState.Store(int64(c.States[0]))
+	m, err := expr.NewExprMachineWithCustomFunctions(src, nil)
+	if err != nil {
+		out.Violation = fmt.Sprintf("%q does not compile: %v", src, err)
+		return out
+	}
+	listing := m.PrintMachine()
+	for round, st := range c.States {
+		envState.Store(int64(st))
+		// what the expression is worth in this state: the same expression with the calls written out as constants
+		konst := strings.ReplaceAll(strings.ReplaceAll(src, "verif-env-num()", fmt.Sprint(st)), "verif-env()", fmt.Sprintf("'env:%d'", st))
+		km, err := expr.NewExprMachineWithCustomFunctions(konst, nil)
+		if err != nil {
+			out.Violation = fmt.Sprintf("%q does not compile: %v", konst, err)
+			return out
+		}
+		want := runMachine(km, Item{Src: src, Ctx: it.Ctx}) // (same context options as the machine under test: they follow the length of Src)
+		var mu sync.Mutex
+		var problems []string
+		var wg sync.WaitGroup
+		for g := 0; g < c.Runners; g++ {
+			wg.Add(1)
+			go func() {
+				defer wg.Done()
+				for rep := 0; rep < 2; rep++ {
+					if got := runMachine(m, it); got != want {
+						mu.Lock()
+						problems = append(problems, fmt.Sprintf("machine %q, run %d after the state its function reads became %d (states so far %v): returned %q, the expression is worth %q now", src, rep+1, st, c.States[:round+1], got, want))
+						mu.Unlock()
+					}
+				}
+			}()
+		}
+		wg.Wait()
+		if len(problems) > 0 {
+			out.Violation = problems[0]
+			return out
+		}
+	}
+	if m.PrintMachine() != listing {
+		out.Violation = "the listing of the machine changed"
+	}
+	return out
+}
+
+var envProp = fw.Register(&fw.Prop[EnvCase]{
+	ID: "C06", Name: "environment",
+	Rule: "a machine that calls custom functions which read a value outside the expression (with and without paths next to them) is compiled once; the value is changed 1-4 times and after every change 1-4 goroutines " +
+		"run the machine twice each; oracle: every run returns what the expression with the calls written out as constants returns at that moment (nothing is kept from one run to the next); non-trivial = the value changes at least once",
+	Gen: genEnv, Check: checkEnv, Weight: 0.3,
+})
+
+func TestEnvironment(t *testing.T) { fw.Run(t, envProp) }
+
 func TestMain(m *testing.M) {
 	xpath.RegisterCustomFunctions([]xpath.CustomFunctionInfo{{
 		Name: "verif-echo", FnPtr: verifEcho, Args: []xpath.DatumTypeChecker{xpath.TypeIsLiteral},
 		RetType: xpath.TypeIsLiteral, DefaultRetVal: xpath.NewLiteralDatum("verif-default"),
 	}})
+	xpath.RegisterCustomFunctions([]xpath.CustomFunctionInfo{
+		{Name: "verif-env", FnPtr: func(args []xpath.Datum) xpath.Datum { return xpath.NewLiteralDatum(fmt.Sprintf("env:%d", envState.Load())) },
+			Args: []xpath.DatumTypeChecker{}, RetType: xpath.TypeIsLiteral, DefaultRetVal: xpath.NewLiteralDatum("env-default")},
+		{Name: "verif-env-num", FnPtr: func(args []xpath.Datum) xpath.Datum { return xpath.NewNumDatum(float64(envState.Load())) },
+			Args: []xpath.DatumTypeChecker{}, RetType: xpath.TypeIsNumber, DefaultRetVal: xpath.NewNumDatum(-1)},
+	})
 	fw.Main(m)
 }
 
